@@ -37,8 +37,25 @@ def generate(rng, tier):
                     c[key] = c[key][:len(c["xin"])]
             c["int_dtype"] = [False, c["int_dtype"][1], c["int_dtype"][2]]
             c["desc"]["grid"] = c["desc"]["grid"] + "+subnormal0"
+        if i % 10 == 3 and c["xmin"] is None and c["xmax"] is None and len(c["xin"]) >= 4 and sorted(c["xin"]) == c["xin"]:
+            # abscissae beyond -xmax: there the window sin(a x)/(a x) has its negative lobes
+            top = max(c["xin"])
+            if top > 0:
+                c["xin"] = [v - 0.75 * top for v in c["xin"]]
+                c["int_dtype"] = [False, c["int_dtype"][1], c["int_dtype"][2]]
+                c["desc"]["grid"] = str(c["desc"]["grid"]) + "+beyond_minus_xmax"
         c["poison"] = i % 3
         cases.append(c)
+    # one long problem (10^4 input points x 500 output points) with uncertainties: whatever path a size-dependent implementation takes
+    nbig, mbig = 10000, 500
+    hb = 0.004
+    xb = [i * hb for i in range(nbig)]
+    big = {"xin": xb, "yin": [math.sin(1.3 * v) * math.exp(-0.05 * v) for v in xb], "xout": [0.05 * (j + 1) for j in range(mbig)],
+           "xmin": None, "xmax": None, "dy": [0.01 + 0.001 * (i % 7) for i in range(nbig)], "lorch": True, "omitted": False, "channel": 2,
+           "int_dtype": [False, False, False], "flagform": "bool", "poison": 0, "big": True,
+           "desc": {"n": nbig, "m": mbig, "grid": "uniform0", "int_arrays": "000", "data": "smooth", "out": "uniform", "window": "none",
+                    "dy": "pos", "zero_on_grid": True, "lorch": True, "omitted": False, "size": "10^4 x 500"}}
+    cases.append(big)
     return cases
 
 
@@ -48,7 +65,12 @@ def run_impl(pystog, case):
     return F.run_ft(pystog, case)
 
 
-to_coq = F.ft_to_coq
+def to_coq(case, res):
+    if case.get("big"):      # too long for a Coq literal: this case is decided by the oracle alone
+        return None
+    return F.ft_to_coq(case, res)
+
+
 nontrivial = F.nontrivial_ft
 
 
